@@ -142,6 +142,37 @@ pub fn qf_run(q: usize, r: usize, kind: usize, stats: &mut MStats) -> Vec<Viol> 
         }
         Err(p) => vs.push(viol("C06", format!("medium qf(q={},r={}) union panics", q, r), format!("union panicked: {}", p), cfg.clone())),
     }
+    // C12: a union that must fail (the full filter f united with a filter holding new fingerprints) leaves f unchanged
+    if f.len() == cap {
+        let mut other = mk();
+        let mut newc = 0;
+        let mut g = 1u64;
+        while newc < 3 && g < 1 << 20 {
+            let fp = (g.wrapping_mul(0xD1B54A32D192ED03) >> 7) & mask;
+            if !set.contains(&fp) && other.insert(&Key(fp)).is_ok() {
+                newc += 1;
+            }
+            g += 1;
+        }
+        // put a few known fingerprints in front so that the failure happens after some transfers
+        for &known in set.iter().take(5) {
+            let _ = other.insert(&Key(known));
+        }
+        let before: Vec<bool> = set.iter().map(|&x| f.query(&Key(x))).collect();
+        let res = mccore::panics::catch(|| f.union(&other));
+        stats.ops += 1;
+        match res {
+            Ok(Err(_)) => {
+                let after: Vec<bool> = set.iter().map(|&x| f.query(&Key(x))).collect();
+                let phantom = (0..1u64 << 12).map(|i| (i.wrapping_mul(0x9E3779B97F4A7C15) >> 11) & mask).filter(|x| !set.contains(x)).take(512).any(|x| f.query(&Key(x)));
+                if f.len() != cap || before != after || phantom {
+                    vs.push(viol("C12", format!("medium qf(q={},r={}) failed union changes the filter", q, r), format!("union into a full filter returned Err but len() = {} (capacity {}), queries changed: {}, new fingerprints visible: {}", f.len(), cap, before != after, phantom), cfg.clone()));
+                }
+            }
+            Ok(Ok(())) => vs.push(viol("C13", format!("medium qf(q={},r={}) union Ok beyond capacity", q, r), "union of a full filter with new fingerprints succeeded".into(), cfg.clone())),
+            Err(p) => vs.push(viol("C12", format!("medium qf(q={},r={}) failing union panics", q, r), format!("union panicked: {}", p), cfg.clone())),
+        }
+    }
     vs
 }
 
@@ -197,9 +228,31 @@ pub fn cuckoo_run(bucketsize: usize, n_buckets: usize, l: usize, kind: usize, ta
                 }
             }
         }
+        let table_before = f.verif_table();
+        let len_before = f.len();
         chooser::begin_with(&[], tail, 0);
         let res = mccore::panics::catch(|| f.insert(&Key(k)));
         chooser::end();
+        if let Ok(Err(_)) = &res {
+            // C12: a failed insert leaves the observable state unchanged
+            if f.len() != len_before {
+                vs.push(viol("C12", format!("medium cuckoo({},{},{}) failed insert changes len", bucketsize, n_buckets, l), format!("step {}: insert failed, len() {} -> {}", step, len_before, f.len()), cfg.clone()));
+                return vs;
+            }
+            if f.verif_table() != table_before {
+                // internal difference: judge observationally (query of every key seen so far)
+                let mut g = f.clone();
+                for &x in inserted.iter().chain(std::iter::once(&k)) {
+                    stats.comparisons += 1;
+                    let want = cnt.get(&class(x)).copied().unwrap_or(0) > 0;
+                    if g.query(&Key(x)) != want {
+                        vs.push(viol("C12", format!("medium cuckoo({},{},{}) failed insert changes queries", bucketsize, n_buckets, l), format!("step {}: after a failed insert query(key {}) = {} but the reference (unchanged by the failure) says {}", step, x, !want, want), cfg.clone()));
+                        return vs;
+                    }
+                }
+                let _ = &mut g;
+            }
+        }
         match res {
             Err(p) => {
                 vs.push(viol("C14", format!("medium cuckoo({},{},{}) insert panics", bucketsize, n_buckets, l), format!("insert at step {} panicked: {}", step, p), cfg.clone()));
